@@ -5,7 +5,7 @@
   * `CfgVal` / `Cfg`: the config dict of a `LocationAction` as an insertion-ordered association list.  Values the
     code can tell apart: text, `None`, an int (limits given in code), the list of watch expressions.
   * `RawFrame`: what `_process_frame` reads of one real frame (`f_code.co_filename`, `f_code.co_name`, `f_lineno`,
-    the `f_locals` dict as a heap reference).
+    the `f_locals` dict as a heap reference, the reported class name of each local).
 
   Modelled, not verified (trusted base, exercised by the correspondence run): `dict(d)` copies, `del d[k]`, `k in d`,
   `d[k]`, `d.get(k, default)` of an insertion-ordered `dict`.
@@ -62,6 +62,10 @@ structure RawFrame where
   f_lineno : Int
   /-- heap reference of the `f_locals` dict -/
   locals : Nat
+  /-- for every local that is not `None`: its name and the outcome of reading `<local>.__class__.__name__`
+      (`none` = the read raises).  This is the class the object *reports* (`__class__`), which for proxy objects is
+      not `type(o)`. -/
+  classes : List (String × Option String)
 deriving Repr, DecidableEq
 
 end FrameBase
